@@ -80,7 +80,7 @@ def oracle(ck, tier, deep):
         c2c = int(rng.integers(max(2, cols - 5), min(2 * cols - 3, cols + 4) + 1))
         im = symmetric_image(rng, rows, cols, c2r, c2c)
         true = (c2r / 2, c2c / 2)
-        scale = float(rng.choice([1e-3, 0.5, 7.0, 1e4]))
+        scale = float(rng.choice([1e-12, 1e-9, 1e-3, 0.5, 7.0, 1e4, 1e9]))       # any positive constant, small physical units included
         ck.count(("S.sym", rows % 2, cols % 2, c2r % 2, c2c % 2), suite="S.symmetric")
         rep = dict(shape=[rows, cols], centre=list(true), image=im.tolist())
         for meth, tol in (("com", 1e-10), ("convolution", 0.0)):
